@@ -43,6 +43,10 @@ fn run_format(src: &str, indent: u8) -> Out {
 /// what the real rowan parser + tree builder did with one text
 pub struct Parsed {
 	pub errs: Vec<(usize, usize)>,
+	/// the errors the tree builder (`Sink::finish`) reported: `errs` without the ones `parse()`
+	/// adds afterwards from the finished tree (duplicate parameter names; C06 compares that verdict
+	/// with the evaluator's parsers)
+	pub sink_errs: Vec<(usize, usize)>,
 	/// pre-order of the real tree: [1,kind] open node, [2,kind,lo,hi] token, [3] close node
 	pub ops: Vec<serde_json::Value>,
 	/// the leaves of the tree are exactly the lexer's lexemes (kind and range, in order)
@@ -59,6 +63,11 @@ fn run_parse(src: &str) -> Result<Parsed, String> {
 		let (file, errors) = jrsonnet_rowan_parser::parse(src);
 		let record = jrsonnet_rowan_parser::verif::take_last_parse();
 		let errs = errors.iter().map(|e| (usize::from(e.range.start()), usize::from(e.range.end()))).collect();
+		let sink_errs = errors
+			.iter()
+			.filter(|e| !e.error.to_string().starts_with("duplicate parameter name"))
+			.map(|e| (usize::from(e.range.start()), usize::from(e.range.end())))
+			.collect();
 		let mut ops = Vec::new();
 		let mut leaves: Vec<(u16, u32, u32)> = Vec::new();
 		for ev in file.syntax().preorder_with_tokens() {
@@ -77,7 +86,7 @@ fn run_parse(src: &str) -> Result<Parsed, String> {
 		// independent of the hook: the lexer's own lexemes
 		let lexed: Vec<(u16, u32, u32)> = jrsonnet_lexer::Lexer::new(src).map(|l| (l.kind.into_raw(), l.range.0 as u32, l.range.1 as u32)).collect();
 		let text_ok = file.syntax().text().to_string() == src;
-		Parsed { errs, ops, yields: leaves == lexed && text_ok, record }
+		Parsed { errs, sink_errs, ops, yields: leaves == lexed && text_ok, record }
 	})
 }
 
@@ -712,7 +721,7 @@ impl Ctx {
 				self.w.case(
 					op,
 					json!({"res":"ok","wf":true,"yield":p.yields,"ops":p.ops,
-						"errs":p.errs.iter().map(|(s, e)| json!([s, e])).collect::<Vec<_>>()}),
+						"errs":p.sink_errs.iter().map(|(s, e)| json!([s, e])).collect::<Vec<_>>()}),
 				);
 			}
 			Err(m) => {
